@@ -19,6 +19,7 @@ package vanguard
 
 // frames (macros)
 //@ define LIB = $map|, $elems|, $connerr|
+//@ define LIB0 = $connerr|
 //@ define RWB = #RWEND, $buf|len
 //@ define RWEND = $vanguard.responseWriter.headersFlushed, $vanguard.responseWriter.buf, $vanguard.responseWriter.err, $vanguard.responseWriter.endWritten, $vanguard.responseWriter.respMeta, $vanguard.responseMeta.end, $vanguard.responseEnd., #LIB
 
@@ -113,7 +114,16 @@ package vanguard
 // ------------------------------------------------------------------------------------------------
 // Well-formedness predicates (type invariants of the per-request objects)
 
-//@ pred validConf(m) = m != nil && m.serviceOptions != nil && m.maxMsgBufferBytes > 0 && m.descriptor != nil && m.requestType != nil && m.responseType != nil && m.handler != nil
+//@ pred knownProto(p) = p == 1 || p == 2 || p == 3 || p == 4
+// validConf: the type invariant of a registered method (established by registerService / registerMethod, C17;
+// relied upon by negotiation, C02).
+//@ pred validConf(m) = m != nil && m.serviceOptions != nil && m.maxMsgBufferBytes > 0 && m.maxGetURLBytes > 0 && m.descriptor != nil && m.requestType != nil && m.responseType != nil && m.handler != nil
+//@ |  && m.protocols != nil && len(m.protocols) > 0 && m.codecNames != nil && len(m.codecNames) > 0 && m.resolver != nil
+//@ |  && (has(m.protocols, 1) || has(m.protocols, 2) || has(m.protocols, 3) || has(m.protocols, 4))
+//@ pred validTarget(t) = t != nil && validConf(t.config)
+//@ pred confOK(m) = validConf(m) && uf("registeredCodec", m.preferredCodec) == 1
+//@ typeinv methodConfig confOK except (*Transcoder).registerMethod, (*Transcoder).registerService, (*Transcoder).addRule, NewTranscoder
+//@ typeinv routeTarget validTarget except makeTarget, (*routeTrie).addRoute, (*routeTrie).insert
 //@ pred validOp(o) = o != nil && o.bufferPool != nil && validConf(o.methodConf) && o.request != nil
 //@ |  && o.client.protocol != nil && o.server.protocol != nil && o.client.codec != nil && o.server.codec != nil
 //@ |  && o.contentLen >= -1
@@ -699,9 +709,173 @@ package vanguard
 //@   ensures[C12] err == nil && old(hdr(headers, "Connect-Timeout-Ms")) != "" ==> meta.hasTimeout && meta.timeout >= 0
 //@   ensures[C12] err == nil && meta.hasTimeout && len(old(hdr(headers, "Connect-Timeout-Ms"))) >= 1 && len(old(hdr(headers, "Connect-Timeout-Ms"))) <= 18 && isdigits(old(hdr(headers, "Connect-Timeout-Ms"))) ==> meta.timeout == min(decval(old(hdr(headers, "Connect-Timeout-Ms"))) * 1000000, 9223372036854775807)
 //@   ensures[C12] isdigits(old(hdr(headers, "Connect-Timeout-Ms"))) && len(old(hdr(headers, "Connect-Timeout-Ms"))) >= 1 && len(old(hdr(headers, "Connect-Timeout-Ms"))) <= 10 ==> err == nil
-//@   ensures[C02] !hdrHas(headers, "Connect-Timeout-Ms")
+//@   ensures[C02,C05] !hdrHas(headers, "Connect-Timeout-Ms") && hdrSameExcept(headers, "Connect-Timeout-Ms")
+//@   modifies mapobj(headers), meta.timeout, meta.hasTimeout, #LIB0
 //@   loop 1 invariant[C12] 0 <= rangeiter && rangeiter < len(str) && len(str) <= 10 && str == old(hdr(headers, "Connect-Timeout-Ms")) && str != ""
 //@   loop 1 invariant[C12] forall j in [0, rangeiter): '0' <= str[j] && str[j] <= '9'
-//@   loop 1 invariant meta.hasTimeout == old(meta.hasTimeout) && meta.timeout == old(meta.timeout) && !hdrHas(headers, "Connect-Timeout-Ms")
+//@   loop 1 invariant meta.hasTimeout == old(meta.hasTimeout) && meta.timeout == old(meta.timeout) && !hdrHas(headers, "Connect-Timeout-Ms") && hdrSameExcept(headers, "Connect-Timeout-Ms")
 //@   loop 1 decreases len(str) - rangeiter
 //@   ensures[C12] err == nil && old(hdr(headers, "Connect-Timeout-Ms")) != "" ==> isdigits(old(hdr(headers, "Connect-Timeout-Ms"))) && len(old(hdr(headers, "Connect-Timeout-Ms"))) <= 10
+
+// ------------------------------------------------------------------------------------------------
+// C13 / C18 / C02: dispatch
+
+//@ pred validReq(r) = r != nil && r.URL != nil && r.Header != nil && r.Body != nil && readerOK(r.Body) && r.ContentLength >= -1
+//@ pred sameReq(a, b) = a.Method == b.Method && a.URL == b.URL && a.Proto == b.Proto && a.ProtoMajor == b.ProtoMajor && a.ProtoMinor == b.ProtoMinor
+//@ |  && a.Header == b.Header && a.Body == b.Body && a.ContentLength == b.ContentLength && a.Host == b.Host && a.RequestURI == b.RequestURI && a.Trailer == b.Trailer
+
+//@ func (*Transcoder).newOperation
+//@   requires t != nil && validReq(request) && writer != nil
+//@   ensures result != nil && result.writer == writer && result.bufferPool != nil && result.request != nil && sameReq(result.request, request) && result.cancel != nil
+//@   ensures !result.isValid && result.methodConf == nil && result.originalHeaders == nil && result.restTarget == nil
+//@   ensures result.client.protocol == nil && result.server.protocol == nil && result.client.reqCompression == nil && result.server.reqCompression == nil
+//@   ensures request.Method == old(request.Method) && request.URL == old(request.URL) && request.Header == old(request.Header)
+//@   ensures[C18] opFresh(result)
+//@   modifies
+
+//@ func asFlusher
+//@   ensures[C16] typeIs(result, flusherNoError) ==> unbox(result, flusherNoError).f != nil
+//@   modifies
+
+//@ func asHTTPError
+//@   ensures[C04] (err != nil) == (result != nil)
+//@   ensures[C04] err != nil && !isConnErr(err) && !isHTTPErr(err) ==> result.code == 500
+//@   modifies
+
+//@ func asConnectError
+//@   ensures[C04] result != nil
+//@   modifies $connerr|
+
+//@ func (*operation).reportError
+//@   dispatch (io.Writer).Write: none
+//@   requires o != nil && o.writer != nil && o.cancel != nil && err != nil
+//@   requires o.isValid ==> validOp(o) && prepOK(o)
+//@   requires typeIs(o.writer, *responseWriter) ==> rwCore(unbox(o.writer, *responseWriter)) && o.isValid
+//@   requires !typeIs(o.writer, *responseWriter) ==> extern(o.writer) && !typeIs(o.writer, *bytes.Buffer)
+//@   track cancels = funcvalue:*
+//@   track heads = (net/http.ResponseWriter).WriteHeader
+//@   ensures[C18] cancels == 1
+//@   ensures[C11,C03] heads <= 1
+//@   ensures[C03] typeIs(o.writer, *responseWriter) ==> unbox(o.writer, *responseWriter).endWritten
+
+//@ pred opFresh(o) = o != nil && validReq(o.request) && o.bufferPool != nil && o.writer != nil && o.cancel != nil && !o.isValid && o.methodConf == nil && o.originalHeaders == nil
+//@ |  && o.restTarget == nil && o.client.protocol == nil && o.server.protocol == nil && o.client.reqCompression == nil && o.server.reqCompression == nil
+//@ |  && o.client.codec == nil && o.server.codec == nil && o.clientEnveloper == nil && o.serverEnveloper == nil && o.clientPreparer == nil && o.serverPreparer == nil
+//@ |  && !o.clientReqNeedsPrep && !o.clientRespNeedsPrep && !o.serverReqNeedsPrep && !o.serverRespNeedsPrep
+//@ pred opSame(o) = o.request == old(o.request) && o.writer == old(o.writer) && o.cancel == old(o.cancel) && o.bufferPool == old(o.bufferPool)
+//@ |  && o.request.Method == old(o.request.Method) && o.request.URL == old(o.request.URL) && o.request.Body == old(o.request.Body) && o.request.Header == old(o.request.Header)
+//@ |  && o.request.URL.Path == old(o.request.URL.Path) && o.request.URL.RawQuery == old(o.request.URL.RawQuery) && o.request.URL.RawPath == old(o.request.URL.RawPath)
+//@ |  && o.request.Host == old(o.request.Host) && o.request.RequestURI == old(o.request.RequestURI)
+
+//@ func (*operation).resolveMethod
+//@   requires o != nil && validReq(o.request) && transcoder != nil && o.client.protocol != nil
+//@   step opSame(o)
+//@   ensures[C06,C02] err == nil ==> validConf(o.methodConf) && (typeIs(o.client.protocol, restClientProtocol) ==> o.restTarget != nil && o.restTarget.config == o.methodConf)
+//@   ensures[C06] err != nil ==> o.methodConf == old(o.methodConf)
+//@   ensures[C19] err == nil && !typeIs(o.client.protocol, restClientProtocol) && o.request.Method != "POST" ==> o.request.Method == "GET" && typeIs(o.client.protocol, connectUnaryGetClientProtocol)
+//@   ensures o.isValid == old(o.isValid) && o.client.protocol == old(o.client.protocol) && o.originalHeaders == old(o.originalHeaders) && o.contentLen == old(o.contentLen)
+//@   modifies o.restTarget, o.restVars, o.methodConf, #LIB0
+
+//@ pred fwdSame(r, request) = r.Method == old(request.Method) && r.URL == old(request.URL) && r.URL.Path == old(request.URL.Path) && r.URL.RawQuery == old(request.URL.RawQuery) && r.URL.RawPath == old(request.URL.RawPath)
+//@ |  && r.Proto == old(request.Proto) && r.ProtoMajor == old(request.ProtoMajor) && r.ProtoMinor == old(request.ProtoMinor)
+//@ |  && hdrEq(r.Header, old(request.Header)) && r.ContentLength == old(request.ContentLength) && r.Body == old(request.Body)
+//@ |  && r.Host == old(request.Host) && r.RequestURI == old(request.RequestURI)
+
+//@ func (*Transcoder).ServeHTTP
+//@   dispatch (net/http.Handler).ServeHTTP: opaque
+//@   requires t != nil && validReq(request) && writer != nil && extern(writer) && !typeIs(writer, *bytes.Buffer)
+//@   track served = (net/http.Handler).ServeHTTP
+//@   track handles = (*operation).handle
+//@   track reports = (*operation).reportError
+//@   track cancels = funcvalue:*
+//@   ensures[C18] served + handles + reports == 1
+//@   ensures[C18] cancels == 1
+//@   atcall[C18] (net/http.Handler).ServeHTTP: served == 1 && handles == 0 && reports == 0 && ((op.isValid && arg(0) == op.methodConf.handler) || (!op.isValid && errIs(err, errNotFound) && arg(0) == t.unknownHandler))
+//@   atcall[C18] (*operation).handle: served == 0 && reports == 0 && handles == 1 && op.isValid && err == nil
+//@   atcall[C18] (*operation).reportError: served == 0 && handles == 0 && reports == 1 && !op.isValid
+//@   atcall[C13] (net/http.Handler).ServeHTTP: arg(1) == writer && fwdSame(arg(2), request)
+//@   atcall[C02,C13] (net/http.Handler).ServeHTTP: op.isValid ==> op.client.protocol.protocol() == op.server.protocol.protocol() && has(op.methodConf.protocols, op.client.protocol.protocol())
+
+//@ func (Protocol).serverHandler
+//@   requires op != nil && op.methodConf != nil
+//@   ensures[C02] p >= 1 && p <= 4 ==> result != nil && result.protocol() == p
+//@   ensures[C02] p == 1 ==> (op.methodConf.streamType == 0 ==> typeIs(result, connectUnaryServerProtocol)) && (op.methodConf.streamType != 0 ==> typeIs(result, connectStreamServerProtocol))
+//@   ensures[C02] (p == 2 ==> typeIs(result, grpcServerProtocol)) && (p == 3 ==> typeIs(result, grpcWebServerProtocol)) && (p == 4 ==> typeIs(result, restServerProtocol))
+//@   ensures p < 1 || p > 4 ==> result == nil
+//@   modifies
+
+//@ func (*operation).validate
+//@   requires opFresh(o) && transcoder != nil
+//@   step opSame(o)
+//@   ensures[C18] (err == nil) == o.isValid
+//@   ensures[C13] o.originalHeaders != nil ==> hdrEq(o.originalHeaders, old(o.request.Header)) && o.contentLen == old(o.request.ContentLength)
+//@   ensures[C13] o.originalHeaders == nil ==> o.request.ContentLength == old(o.request.ContentLength) && o.request.Proto == old(o.request.Proto)
+//@   ensures[C13] errIs(err, errNotFound) ==> o.originalHeaders != nil && o.request.Proto == old(o.request.Proto) && o.request.ProtoMajor == old(o.request.ProtoMajor) && o.request.ProtoMinor == old(o.request.ProtoMinor)
+//@   ensures[C13] err == nil ==> (o.request.Proto == old(o.request.Proto) && o.request.ProtoMajor == old(o.request.ProtoMajor) && o.request.ProtoMinor == old(o.request.ProtoMinor)) || (o.server.protocol.protocol() == 2 && old(o.request.ProtoMajor) != 2)
+//@   ensures[C02,C13] err == nil && o.client.protocol.protocol() == 2 ==> old(o.request.ProtoMajor) == 2
+//@   ensures[C02] err == nil && o.server.protocol.protocol() == 2 ==> o.request.ProtoMajor == 2
+//@   ensures[C02,C18] err == nil ==> validOp(o) && o.originalHeaders != nil
+//@   ensures[C02] err == nil ==> has(o.methodConf.protocols, o.server.protocol.protocol())
+//@   ensures[C02] err == nil && has(o.methodConf.protocols, o.client.protocol.protocol()) ==> o.server.protocol.protocol() == o.client.protocol.protocol()
+//@   ensures[C02] err == nil ==> o.server.reqCompression == nil || o.server.reqCompression == o.client.reqCompression
+//@   ensures[C02] err == nil ==> !hdrHas(o.request.Header, "Content-Encoding") && !hdrHas(o.request.Header, "Accept-Encoding") && !hdrHas(o.request.Header, "Content-Length") && o.request.ContentLength == -1
+//@   ensures o.clientEnveloper == nil && o.serverEnveloper == nil && o.clientPreparer == nil && o.serverPreparer == nil && !o.clientReqNeedsPrep && !o.clientRespNeedsPrep && !o.serverReqNeedsPrep && !o.serverRespNeedsPrep
+//@   loop 1 invariant -1 <= rangeindex && rangeindex < 4 && opSame(o) && !o.isValid && o.originalHeaders != nil && confOK(o.methodConf) && o.client.protocol != nil && o.client.codec != nil
+//@   loop 1 invariant forall j in [0, rangeindex+1): !has(o.methodConf.protocols, allProtocols[j])
+//@   loop 1 invariant hdrEq(o.originalHeaders, old(o.request.Header)) && o.contentLen == old(o.request.ContentLength) && o.request.ContentLength == -1
+//@   loop 1 invariant !hdrHas(o.request.Header, "Content-Encoding") && !hdrHas(o.request.Header, "Accept-Encoding") && !hdrHas(o.request.Header, "Content-Length")
+//@   loop 1 invariant o.server.protocol == nil && !has(o.methodConf.protocols, o.client.protocol.protocol())
+//@   loop 1 invariant o.request.Proto == old(o.request.Proto) && o.request.ProtoMajor == old(o.request.ProtoMajor) && o.request.ProtoMinor == old(o.request.ProtoMinor)
+//@   loop 1 invariant o.server.reqCompression == nil && o.server.codec == nil && o.clientEnveloper == nil && o.serverEnveloper == nil && o.clientPreparer == nil && o.serverPreparer == nil && !o.clientReqNeedsPrep && !o.clientRespNeedsPrep && !o.serverReqNeedsPrep && !o.serverRespNeedsPrep
+
+// ------------------------------------------------------------------------------------------------
+// C02 / C05 / C12: protocol request headers (each extractor touches only the header map it is given)
+
+//@ func (grpcClientProtocol).extractProtocolRequestHeaders
+//@   requires headers != nil
+//@   ensures[C02] err == nil ==> !hdrHas(headers, "Te") && !hdrHas(headers, "Content-Type") && !hdrHas(headers, "Grpc-Encoding") && !hdrHas(headers, "Grpc-Accept-Encoding") && !hdrHas(headers, "Grpc-Timeout")
+//@   modifies mapobj(headers), #LIB0
+//@ func (grpcWebClientProtocol).extractProtocolRequestHeaders
+//@   requires headers != nil
+//@   ensures[C02] err == nil ==> !hdrHas(headers, "Content-Type") && !hdrHas(headers, "Grpc-Encoding") && !hdrHas(headers, "Grpc-Accept-Encoding") && !hdrHas(headers, "Grpc-Timeout")
+//@   modifies mapobj(headers), #LIB0
+//@ func (connectStreamClientProtocol).extractProtocolRequestHeaders
+//@   requires headers != nil
+//@   ensures[C02] err == nil ==> !hdrHas(headers, "Content-Type") && !hdrHas(headers, "Connect-Content-Encoding") && !hdrHas(headers, "Connect-Accept-Encoding") && !hdrHas(headers, "Connect-Timeout-Ms")
+//@   modifies mapobj(headers), #LIB0
+//@ func (connectUnaryPostClientProtocol).extractProtocolRequestHeaders
+//@   requires headers != nil
+//@   ensures[C02] err == nil ==> !hdrHas(headers, "Content-Type") && !hdrHas(headers, "Content-Encoding") && !hdrHas(headers, "Accept-Encoding") && !hdrHas(headers, "Connect-Protocol-Version") && !hdrHas(headers, "Connect-Timeout-Ms")
+//@   modifies mapobj(headers), #LIB0
+//@ func (connectUnaryGetClientProtocol).extractProtocolRequestHeaders
+//@   requires headers != nil && op != nil && op.request != nil && op.request.URL != nil
+//@   ensures[C02] err == nil ==> !hdrHas(headers, "Content-Type") && !hdrHas(headers, "Accept-Encoding") && !hdrHas(headers, "Connect-Protocol-Version") && !hdrHas(headers, "Connect-Timeout-Ms")
+//@   modifies mapobj(headers), op.queryVars, #LIB0
+//@ func (restClientProtocol).extractProtocolRequestHeaders
+//@   requires headers != nil && op != nil && validConf(op.methodConf) && op.restTarget != nil
+//@   ensures[C02] err == nil ==> !hdrHas(headers, "Content-Type") && !hdrHas(headers, "Content-Encoding") && !hdrHas(headers, "Accept-Encoding")
+//@   modifies mapobj(headers), #LIB0
+
+//@ func restDecodeTimeout
+//@   ensures[C12] err == nil ==> r0 >= 0
+//@   ensures[C12] timeout == "" ==> err == nil && r0 == 0
+
+//@ func grpcExtractTimeoutFromHeaders
+//@   requires headers != nil && meta != nil
+//@   ensures[C12] old(hdr(headers, "Grpc-Timeout")) == "" ==> err == nil && meta.hasTimeout == old(meta.hasTimeout) && meta.timeout == old(meta.timeout)
+//@   ensures[C12] gsyntax(old(hdr(headers, "Grpc-Timeout"))) ==> err == nil
+//@   ensures[C12] err == nil && old(hdr(headers, "Grpc-Timeout")) != "" && meta.hasTimeout && !old(meta.hasTimeout) ==> gsyntax(old(hdr(headers, "Grpc-Timeout"))) && meta.timeout == gvalue(old(hdr(headers, "Grpc-Timeout"))) && meta.timeout >= 0
+//@   ensures[C02,C05] !hdrHas(headers, "Grpc-Timeout") && hdrSameExcept(headers, "Grpc-Timeout")
+//@   modifies mapobj(headers), meta.timeout, meta.hasTimeout, #LIB0
+
+//@ func grpcExtractRequestMeta
+//@   requires headers != nil
+//@   ensures[C02] err == nil ==> !hdrHas(headers, "Content-Type") && !hdrHas(headers, "Grpc-Encoding") && !hdrHas(headers, "Grpc-Accept-Encoding") && !hdrHas(headers, "Grpc-Timeout")
+//@   ensures[C02] err == nil && old(hdr(headers, "Content-Type")) == contentTypeShort ==> r0.codec == "proto"
+//@   ensures[C02] err == nil ==> r0.compression == old(hdr(headers, "Grpc-Encoding"))
+//@   ensures[C05] hdrSameExcept(headers, "Grpc-Timeout", "Content-Type", "Grpc-Encoding", "Grpc-Accept-Encoding")
+//@   modifies mapobj(headers), #LIB0
+
+//@ func parseMultiHeader
+//@   loop 1 invariant count >= 0
+//@   modifies
